@@ -125,6 +125,10 @@ def run(cx):
         ok = v.own <= mut.FS and v.inner <= mut.FS
         cx.ob('FRESH', 'a sliced or viewed sample shares at most the event buffer, never metadata', ok, mod, st, q,
               detail='' if ok else 'result may share %s' % sorted((v.own | v.inner) - mut.FS), key='fresh|' + norm_stmt(st))
+    # the calibration's result keeps no list of the caller's (the effect analysis cannot tell the copy from the wrapped single
+    # channel: both carry the argument's label; the definitions reaching the bound list decide)
+    from . import mef_rules
+    mef_rules.own_channel_list(cx, rule='FRESH')
     cx.floor('FRESH', cx.rules.get('FRESH', 0), 12, 'result freshness obligations')
     # derived arrays get fresh metadata (premise of the array-kind rule)
     R.attrset(cx)
